@@ -11,7 +11,7 @@ git -C /repo worktree add -q --detach "$w/pprof" HEAD || exit 2
 trap 'git -C /repo worktree remove --force "$w/pprof" >/dev/null 2>&1; rm -rf "$w"' EXIT
 cd "$w/pprof"
 demodir=$(python3 -c "import json,sys;print(json.load(open('$sd/meta.json')).get('demo_dir','').strip('/'))")
-demo=$(ls "$sd"/*_test.go 2>/dev/null | head -1)
+demo=$(ls "$sd"/*_test.go "$sd"/demo_test.go.txt 2>/dev/null | head -1)
 tests=$(grep -ho '^func Test[A-Za-z0-9_]*' "$demo" 2>/dev/null | sed 's/func //' | paste -sd'|')
 rundemo() { go test -vet=off -count=1 -run "^($tests)\$" "./$demodir" >"$w/demo.out" 2>&1; }
 res_demo_clean=NA; res_demo_patched=NA; res_suite=NA; applies=no
